@@ -164,6 +164,47 @@ class Sched:
             relevant_loop[L['header']] = rel
         results = []
 
+        quiet_memo = {}
+
+        def join_of(sw, succs):
+            """the block where all good arms of switch `sw` meet again, if no block on the way calls the reader / a helper /
+            a reader-driven closure and no loop header lies in between; else None"""
+            if sw in quiet_memo:
+                return quiet_memo[sw]
+            res_ = None
+            cands = [x for x in cfg.reach if x != sw and x in good and all(cfg.postdominates(x, s_) for s_ in succs)]
+            # nearest common post-dominator: the one post-dominated by all the others
+            best = None
+            for x in cands:
+                if all(cfg.postdominates(y, x) for y in cands):
+                    best = x
+            if best is not None:
+                between = set()
+                st_ = list(succs)
+                ok_ = True
+                while st_ and ok_:
+                    x = st_.pop()
+                    if x == best or x in between:
+                        continue
+                    if x not in good:
+                        continue
+                    between.add(x)
+                    if any(L_['header'] == x for L_ in cfg.loops) or x == sw:
+                        ok_ = False
+                        break
+                    c_ = body.call_at(x)
+                    if c_ is not None and self.call_kind(body, c_) is not None:
+                        ok_ = False
+                        break
+                    if body.blocks[x]['term'] and body.blocks[x]['term']['k'] == 'return':
+                        ok_ = False
+                        break
+                    st_.extend(cfg.succ[x])
+                if ok_ and not any(L_['header'] == best and sw in L_['body'] for L_ in cfg.loops):
+                    res_ = best
+            quiet_memo[sw] = res_
+            return res_
+
         def loop_count_term(header):
             # header block calls Iterator::next(it)
             for bi in [header] + cfg.succ[header]:
@@ -250,6 +291,12 @@ class Sched:
                     cond = r.operand(t['discr'])
                     if len(succs) == 1:
                         bb = succs[0]
+                        continue
+                    # a branch whose arms touch the reader nowhere before they rejoin does not shape the read sequence:
+                    # continue at the join point (keeps e.g. a 14-arm value match from multiplying the paths)
+                    j = join_of(bb, succs)
+                    if j is not None:
+                        bb = j
                         continue
                     for s in succs:
                         d = self._decision(body, bb, cond, s, loop_count_term)
